@@ -41,9 +41,17 @@ def party(el, ident=None, ref=None, rnd=None):
     return p
 
 
+# distinct ids that differ only in what a tidy-minded matcher might ignore: surrounding blanks, case, a trailing line break
+LOOKALIKE_IDS = ["p1", "p1 ", " p1", "P1", "p1\n", "p1.", "p01", "p1\u00a0"]
+
+
+def ID_OF(k):
+    return LOOKALIKE_IDS[(k - 1) % len(LOOKALIKE_IDS)]
+
+
 def build(plan, fault, rnd):
     items = plan
-    ids = {i + 1: f"id{i + 1}" for i, it in enumerate(items) if it["kind"] in ("def", "def0")}
+    ids = {i + 1: ID_OF(i + 1) for i, it in enumerate(items) if it["kind"] in ("def", "def0")}
     if fault[0] == "duplicate-id":
         ids[fault[2]] = ids[fault[1]]
     d = Node("dataset")
@@ -139,7 +147,7 @@ def w_plans(idx):
             multi = Node(el0)
             multi.add_child(Node("zzLeading", content="own-first"))
             for j in range(2 + i % 2):
-                multi.add_child(Node("references", content=f"id{same[(i + j) % len(same)] + 1}"))
+                multi.add_child(Node("references", content=ID_OF(same[(i + j) % len(same)] + 1)))
                 if j == 0 and i % 3 == 0:
                     multi.add_child(Node("zzBetween", content="own-between"))
             multi.add_child(Node("zzTrailing", content="own-last"))
@@ -159,7 +167,7 @@ def w_plans(idx):
             md = Node("metadata")
             wrap = Node("zzWrapper")
             el = items[defs[0]]["el"]
-            wrap.add_child(party(el, ref=f"id{defs[0] + 1}", rnd=random.Random(i)))
+            wrap.add_child(party(el, ref=ID_OF(defs[0] + 1), rnd=random.Random(i)))
             md.add_child(wrap)
             am.add_child(md)
             e.add_child(am)
